@@ -369,39 +369,43 @@ def unseeded_sources(run):
 
 
 def shared_objects_frame(run):
-    """Adapter objects are shared by all chains of a process (and copied to worker processes per stage): per-chain adaptation state
-    lives in the `adapt_state` dictionaries.  Frame obligation (Engine C, on the real source): outside `__init__` no method of an
-    adapter class assigns, augments or deletes an attribute of `self` -- otherwise what one chain computes leaks into the chains the
-    same process handles later, and the result depends on the chain-to-process schedule."""
+    """Adapter, transition and integrator objects are shared by all chains of a process (and copied to worker processes per stage): per-chain
+    state lives in the `adapt_state` dictionaries, the chain states and the per-chain generators.  Frame obligation (Engine C, on the real source):
+    outside `__init__` (and property setters, which are the public configuration interface) no method of these classes assigns, augments or
+    deletes an attribute of `self` -- otherwise what one chain computes or draws leaks into the chains the same process handles later, and the
+    result depends on the chain-to-process schedule."""
     import ast
     from .. import frames
-    tree, _ = frames.parse_module("adapters")
     n = 0
-    for cls in [x for x in tree.body if isinstance(x, ast.ClassDef)]:
-        for fn in [x for x in cls.body if isinstance(x, (ast.FunctionDef, ast.AsyncFunctionDef)) and x.name != "__init__"]:
-            writes = []
-            for node in ast.walk(fn):
-                targets = []
-                if isinstance(node, ast.Assign):
-                    targets = node.targets
-                elif isinstance(node, (ast.AugAssign, ast.AnnAssign)):
-                    targets = [node.target]
-                elif isinstance(node, ast.Delete):
-                    targets = node.targets
-                elif isinstance(node, ast.Call) and isinstance(node.func, ast.Name) and node.func.id == "setattr" and node.args and \
-                        isinstance(node.args[0], ast.Name) and node.args[0].id == "self":
-                    writes.append(f"setattr(self, ...) at line {node.lineno}")
-                for t in targets:
-                    for x in ast.walk(t):
-                        if isinstance(x, ast.Attribute) and isinstance(x.value, ast.Name) and x.value.id == "self":
-                            writes.append(f"self.{x.attr} at line {node.lineno}")
-            n += 1
-            run.ob(f"adapters.{cls.name}.{fn.name}/does-not-write-the-shared-adapter-object", core.DISCHARGED if not writes else core.FAILED, "frames",
-                   detail="" if not writes else f"{cls.name}.{fn.name} writes {writes}: the adapter object is shared by every chain (and stage) its process handles",
-                   witness=None if not writes else {"class": cls.name, "method": fn.name, "writes": writes},
-                   text="adapter methods other than __init__ keep all state in adapt_state (frame: no write to self.*)")
+    for modname, what in (("adapters", "adapter"), ("transitions", "transition"), ("integrators", "integrator")):
+        tree, _ = frames.parse_module(modname)
+        for cls in [x for x in tree.body if isinstance(x, ast.ClassDef)]:
+            for fn in [x for x in cls.body if isinstance(x, (ast.FunctionDef, ast.AsyncFunctionDef)) and x.name != "__init__"]:
+                if any(isinstance(d, ast.Attribute) and d.attr == "setter" for d in fn.decorator_list):
+                    continue
+                writes = []
+                for node in ast.walk(fn):
+                    targets = []
+                    if isinstance(node, ast.Assign):
+                        targets = node.targets
+                    elif isinstance(node, (ast.AugAssign, ast.AnnAssign)):
+                        targets = [node.target]
+                    elif isinstance(node, ast.Delete):
+                        targets = node.targets
+                    elif isinstance(node, ast.Call) and isinstance(node.func, ast.Name) and node.func.id == "setattr" and node.args and \
+                            isinstance(node.args[0], ast.Name) and node.args[0].id == "self":
+                        writes.append(f"setattr(self, ...) at line {node.lineno}")
+                    for t in targets:
+                        for x in ast.walk(t):
+                            if isinstance(x, ast.Attribute) and isinstance(x.value, ast.Name) and x.value.id == "self":
+                                writes.append(f"self.{x.attr} at line {node.lineno}")
+                n += 1
+                run.ob(f"{modname}.{cls.name}.{fn.name}/does-not-write-the-shared-{what}-object", core.DISCHARGED if not writes else core.FAILED, "frames",
+                       detail="" if not writes else f"{cls.name}.{fn.name} writes {writes}: the {what} object is shared by every chain (and stage) its process handles",
+                       witness=None if not writes else {"class": cls.name, "method": fn.name, "writes": writes},
+                       text=f"{what} methods other than __init__ keep per-chain state out of the shared object (frame: no write to self.*)")
     if n == 0:
-        run.ob("adapters/does-not-write-the-shared-adapter-object", core.ERROR, "frames", detail="no adapter methods found")
+        run.ob("library/does-not-write-shared-objects", core.ERROR, "frames", detail="no methods found")
 
 
 def run(run_, tier):
